@@ -196,3 +196,28 @@ lemma('species-built-before-a-refit-applies-the-new-offsets', P,
 
 from contracts import helpers
 helpers.install(P, 'references', 'kwargs')
+
+# ---- many reference species (the fit is the least-squares solution over ALL of them) and rarely combined switches ------------
+for nm, shape in (('5ref-2el(overdetermined)', [['H', 'O']] * 5), ('7ref-2el(overdetermined)', [['H', 'O']] * 7),
+                  ('9ref-3el(overdetermined)', [['C', 'H', 'O']] * 9)):
+    keys = sorted({k for ks in shape for k in ks})
+    n = len(shape)
+    predicted = lambda i: ' + '.join("self.offset[%r] * %s" % (d, comp(i, d)) for d in keys)
+    contract(RF + 'References.fit_HoRT_offset', P, label=nm, args=dict(self=refs_obj(shape)),
+             ensures=[('offset-per-descriptor', 'sorted(self.offset.keys()) == %r' % keys),
+                      ('residual-orthogonal-to-composition-matrix',
+                       ' and '.join('(%s) == 0' % ' + '.join(
+                           '%s * ((%s) - (%s - self.references[%d].HoRT_ref))' % (comp(i, d), predicted(i), dft(i), i)
+                           for i in range(n)) for d in keys))],
+             cross_check=False)
+for q in ('GoRT', 'HoRT'):
+    for se in (True, False):
+        if q == 'HoRT' and se:
+            continue
+        extra = dict(S_elements=Const(True)) if se else {}
+        call = 'T=T, S_elements=True' if se else 'T=T'
+        contract(SM + '.get_' + q, P, label='references-off%s-equals-no-references' % (',S_elements' if se else ''),
+                 args=dict(self=species(), T=T, use_references=Const(False), **extra), ghost=dict(bare=species(False)),
+                 requires=['T > 0', 'bare.elec_model.potentialenergy == self.elec_model.potentialenergy',
+                           "bare.elements['H'] == self.elements['H']", "bare.elements['O'] == self.elements['O']"],
+                 ensures=[('disappears-exactly', 'result == bare.get_%s(%s)' % (q, call))], cross_check=False)
